@@ -1966,7 +1966,7 @@ static inline void gp_arr_map11(
 }
 GP_NONNULL_ARGS_AND_RETURN
 static inline GPArray(void) gp_arr_map_new11(
-    const size_t elem_size, const GPAllocator*const alc, GPArrIn src, void(*const f)(void*, const void*))
+    const size_t elem_size, const void*const alc, GPArrIn src, void(*const f)(void*, const void*))
 {
     GPArray(void) out = gp_arr_new(alc, elem_size, src.length);
     return out = gp_arr_map(elem_size, out, src.data, src.length, f);
@@ -1991,7 +1991,7 @@ static inline void gp_arr_filter11(
 }
 GP_NONNULL_ARGS_AND_RETURN
 static inline GPArray(void) gp_arr_filter_new11(
-    const size_t elem_size, const GPAllocator*const alc, GPArrIn src, bool(*const f)(const void*))
+    const size_t elem_size, const void*const alc, GPArrIn src, bool(*const f)(const void*))
 {
     GPArray(void) out = gp_arr_new(alc, elem_size, src.length);
     return out = gp_arr_filter(elem_size, out, src.data, src.length, f);
